@@ -810,6 +810,43 @@ theorem c10_time_trial_reuse_counterexample : ¬ c10_time_trial_reuse_statement 
   revert this
   decide
 
+/-! ### several sources in one call -/
+
+section
+variable {F : Type} [Add F] [Div F] [LE F] [DecidableLE F] [LT F] [DecidableLT F] [OfNat F 0]
+
+/-- after the passes for sources `0..n-1` every value of a source `< n` holds that source's density,
+the others are still zero -/
+theorem C10.calcPd_fold (val : Nat → F → F) (S : Nat → F) (ivs : List (F × F)) (vals : List (Nat × F)) (n : Nat) :
+    (List.range n).foldl (fun pd k => srcPass (val k) ivs (S k) k pd vals) (vals.map (fun _ => (0 : F))) =
+      vals.map (fun v => if v.1 < n then timePd (val v.1) ivs (S v.1) v.2 else 0) := by
+  induction n with
+  | zero => simp
+  | succ n ih =>
+    rw [List.range_succ, List.foldl_append, List.foldl_cons, List.foldl_nil, ih]
+    unfold srcPass
+    rw [List.zipWith_map_left, List.zipWith_self]
+    apply List.map_congr_left
+    intro v _
+    by_cases h : v.1 = n
+    · simp only [h, if_true, lt_irrefl, if_false, Nat.lt_succ_self]
+      unfold timePd
+      split_ifs <;> rfl
+    · have : v.1 < n + 1 ↔ v.1 < n := by omega
+      simp only [h, if_false, this]
+
+/-- **the source loop of `SignalTimePDF._calculate_pd`** (real `src_evt_idxs`, any event selection, any
+per-source parameters): every value is the single-source density of its own source at its own event. -/
+theorem c10_time_multi_source_pointwise (val : Nat → F → F) (S : Nat → F) (ivs : List (F × F)) (nSrc : Nat)
+    (vals : List (Nat × F)) (hsrc : ∀ v ∈ vals, v.1 < nSrc) :
+    calcPdMulti val S ivs nSrc vals = vals.map (fun v => timePd (val v.1) ivs (S v.1) v.2) := by
+  unfold calcPdMulti
+  rw [C10.calcPd_fold]
+  apply List.map_congr_left
+  intro v hv
+  rw [if_pos (hsrc v hv)]
+end
+
 /-! ### the cached normalisation `_S` over arbitrary histories -/
 
 namespace C10
@@ -1097,6 +1134,55 @@ theorem c10_grid_cache_transparent {F : Type} [Mul F] (cacheOn : Bool) (raw norm
       obtain ⟨h1, h2⟩ := C10.gEval_spec cacheOn raw norm s id hs
       simp only [gRun, List.map_cons, h1, ih _ h2]
   exact hgen ids _ (fun id pd hk _ => by simp at hk)
+
+/-- **the pd cache with event subsets is transparent** (fixed code): for every sequence of
+requests on one object — `get_pd` (all values) and `get_pd_with_eventdata(evt_mask=…)` (any
+subsets, e.g. one per source) mixed in any order, repeated for a trial, trials changing, caching
+on or off — every returned value is `interpolated grid value × norm factor` of the requested
+event; never a NaN placeholder.  Hypotheses are the well-formedness of the requests (one norm
+value per event, masks as long as the trial). -/
+theorem c10_grid_cache_masked_transparent {F : Type} [Mul F] (cacheOn : Bool) (raw norm : Nat → List F)
+    (reqs : List (Nat × Option (List Bool)))
+    (hn : ∀ r ∈ reqs, (norm r.1).length = (raw r.1).length)
+    (hm : ∀ r ∈ reqs, ∀ m, r.2 = some m → m.length = (raw r.1).length) :
+    gmRun true cacheOn raw norm ⟨none, none⟩ reqs =
+      reqs.map (fun r => (pick (r.2.getD (List.replicate (raw r.1).length true))
+        (List.zipWith (· * ·) (raw r.1) (norm r.1))).map some) := by
+  have hgen : ∀ (reqs : List (Nat × Option (List Bool))) (s : GMState F), C10.GMInv raw norm s →
+      (∀ r ∈ reqs, (norm r.1).length = (raw r.1).length) →
+      (∀ r ∈ reqs, ∀ m, r.2 = some m → m.length = (raw r.1).length) →
+      gmRun true cacheOn raw norm s reqs =
+        reqs.map (fun r => (pick (r.2.getD (List.replicate (raw r.1).length true))
+          (List.zipWith (· * ·) (raw r.1) (norm r.1))).map some) := by
+    intro reqs
+    induction reqs with
+    | nil => intro s _ _ _; rfl
+    | cons r rest ih =>
+      intro s hs hn hm
+      obtain ⟨id, mask⟩ := r
+      obtain ⟨h1, h2⟩ := C10.gmEval_spec cacheOn raw norm s id mask (hn (id, mask) (by simp))
+        (hm (id, mask) (by simp)) hs
+      simp only [gmRun, List.map_cons, h1]
+      rw [ih _ h2 (fun r hr => hn r (by simp [hr])) (fun r hr => hm r (by simp [hr]))]
+  exact hgen reqs _ (fun id c hk _ => by simp at hk) hn hm
+
+/-- the same claim for the code before the fix -/
+def c10_grid_cache_masked_orig_statement : Prop :=
+  ∀ (raw norm : Nat → List ℤ) (reqs : List (Nat × Option (List Bool))),
+    (∀ r ∈ reqs, (norm r.1).length = (raw r.1).length) →
+    (∀ r ∈ reqs, ∀ m, r.2 = some m → m.length = (raw r.1).length) →
+    gmRun false true raw norm ⟨none, none⟩ reqs =
+      reqs.map (fun r => (pick (r.2.getD (List.replicate (raw r.1).length true))
+        (List.zipWith (· * ·) (raw r.1) (norm r.1))).map some)
+
+/-- a masked evaluation (first event only) followed by `get_pd` for the same trial returned the NaN
+placeholder of the second event -/
+theorem c10_grid_cache_masked_orig_counterexample : ¬ c10_grid_cache_masked_orig_statement := by
+  intro h
+  have := h (fun _ => [2, 2]) (fun _ => [3, 3]) [(0, some [true, false]), (0, none)]
+    (by intro r _; rfl) (by intro r hr m hm; simp at hr; rcases hr with rfl | rfl <;> simp at hm; subst hm; rfl)
+  revert this
+  decide
 
 /-- storing the values before the normalisation: the second evaluation of a trial returns the
 un-normalised grid value (raw 2, norm 3: 6 then 2). -/
